@@ -153,6 +153,10 @@ pub struct Core {
     /// unlink CASes that succeeded on a predecessor that was not reachable from the sentinel at
     /// that moment: (thread, predecessor address, address of the node that was to be unlinked)
     pub stale_unlinks: Vec<(usize, usize, usize)>,
+    /// (thread, node) of successful mark CASes applied to a node that was not reachable from the sentinel
+    pub stale_marks: Vec<(usize, usize)>,
+    /// (thread, predecessor, node, next offset written) of successful unlink CASes that followed such a mark
+    pub stale_mark_unlinks: Vec<(usize, usize, usize, u32)>,
 }
 
 pub struct Sched {
@@ -241,6 +245,8 @@ impl Core {
             c08_recycled_checks: 0,
             hang_list: vec![],
             stale_unlinks: vec![],
+            stale_marks: vec![],
+            stale_mark_unlinks: vec![],
         }
     }
 
@@ -573,12 +579,21 @@ fn hook_after(e: &Event) {
                     // every other thread is parked: the raw walk sees the list as it is
                     c.stale_unlinks.push((me, addr, node));
                 }
+                if e.wrote && c.stale_marks.iter().any(|(t, n)| *t == me && *n == node) {
+                    // the node was not in the list when this thread marked it (it had been popped and was being
+                    // re-inserted); the unlink nevertheless succeeded (the predecessor's word had the expected value
+                    // again) and wrote the successor the thread had read from the unlinked node
+                    c.stale_mark_unlinks.push((me, addr, node, e.written as u32));
+                }
                 c.pending_unlink[me] = None;
             }
         }
         if e.wrote && (e.written >> 32) == 0 && (e.expected >> 32) != 0 && e.width == 8 && addr >= c.base && addr < c.base + c.cap {
             c.marks.insert(addr, (me, "marked"));
             c.pending_unlink[me] = Some(addr);
+            if c.sentinel_addr != 0 && !reachable(&c, addr) {
+                c.stale_marks.push((me, addr));
+            }
         }
     }
     if e.access == Access::Store && e.width == 8 && (e.written >> 32) != 0 {
